@@ -73,4 +73,19 @@ class BytesE(enum.Enum):
     B2 = b'ab'
 
 
-ENUMS = {c.__name__: c for c in (IntE, StrE, FloatE, MixedE, NoneE, BoolE, IE, SE, BytesE)}
+class IE0(enum.IntEnum):
+    ZERO = 0
+    ONE = 1
+
+
+class SE0(str, enum.Enum):
+    EMPTY = ''
+    A = 'a'
+
+
+class FE0(float, enum.Enum):
+    NIL = 0.0
+    HALF = 0.5
+
+
+ENUMS = {c.__name__: c for c in (IntE, StrE, FloatE, MixedE, NoneE, BoolE, IE, SE, BytesE, IE0, SE0, FE0)}
